@@ -85,16 +85,17 @@ class AstMap:
             new_list = x_table[key]
             if value not in new_list:
                 new_list.append(value)
-            if not (key in self.conflict_keys):
-                for other in new_list:
-                    if value.id != other.id:
-                        self.conflict_keys.append(key)
-                        break
         else:
             new_list = AstSymbolList()
             new_list.append(value)
-
         x_table[key] = new_list
+
+        # A placeholder stands for one identifier, whichever table records its occurrences
+        if not (key in self.conflict_keys):
+            for table in (self.symbol_table, self.func_table, self.class_table):
+                if any(value.id != other.id for other in table.get(key, ())):
+                    self.conflict_keys.append(key)
+                    break
         return len(self.conflict_keys)
 
     def add_class_to_sym_table(self, ins_node, std_node):
